@@ -471,6 +471,11 @@ def process(ctx, texts, all_indents=True):
         if entry == "document":
             for d in r[1].definitions:
                 ctx.stat("def:" + type(d).__name__)
+                vds = getattr(d, "variable_definitions", None) or []
+                if vds and type(d).__name__ == "FragmentDefinition":
+                    ctx.stat("pos:fragment-variable-definitions")
+                if any(vd.directives for vd in vds):
+                    ctx.stat("pos:variable-definition-directives:" + type(d).__name__)
         indents = INDENTS if all_indents else [2, rng.choice(INDENTS)]
         for ind in indents:
             res = oracle(text, ind, entry, tree=r[1])
@@ -490,6 +495,92 @@ def process(ctx, texts, all_indents=True):
 
 
 # ---------------------------------------------------------------------------------------------
+# DEEP NESTING (hunt C03/1): one stream per recursive position of the grammar, depths 50 .. 1000.  The parser accepts
+# more levels than the printer can print (the printer spends more Python frames per level): `print_ast` raises
+# RecursionError on a parser-produced tree.  The boundary is measured on every run and recorded in the evidence
+# (`deep_nesting`); where both sides succeed the round trip and the correspondence with the model are checked as usual.
+
+DEEP_DEPTHS = (50, 100, 150, 200, 250, 300, 400, 1000)
+DEEP_POSITIONS = {
+    "selection-set": ("document", lambda n: "{a" * n + "}" * n),
+    "inline-fragment": ("document", lambda n: "{" + "...{" * n + "a" + "}" * n + "}"),
+    "list-value": ("value", lambda n: "[" * n + "1" + "]" * n),
+    "object-value": ("value", lambda n: "{a:" * n + "1" + "}" * n),
+    "list-type": ("type", lambda n: "[" * n + "Int" + "]" * n),
+    "argument-value": ("document", lambda n: "{a(x:" + "[{b:" * (n // 2) + "1" + "}]" * (n // 2) + ")}"),
+    "variable-type": ("document", lambda n: "query($v:" + "[" * n + "Int" + "]" * n + "){a}"),
+    "variable-default": ("document", lambda n: "query($v:Int=" + "[" * n + "1" + "]" * n + "){a}"),
+    "fragment-definition": ("document", lambda n: "fragment F($v:Int=" + "[" * (n // 2) + "1" + "]" * (n // 2) + ") on T" + "{a" * (n // 2) + "}" * (n // 2)),
+}
+
+
+def tree_eq_iter(a, b):
+    """structural equality of two trees without recursion (Node.__eq__ recurses)"""
+    from py_gql.lang import ast as A
+    stack = [(a, b)]
+    while stack:
+        x, y = stack.pop()
+        if isinstance(x, A.Node):
+            if type(x) is not type(y):
+                return False
+            for k in x.__slots__:
+                if k not in ("source", "loc"):
+                    stack.append((getattr(x, k), getattr(y, k)))
+        elif isinstance(x, (list, tuple)):
+            if not isinstance(y, (list, tuple)) or len(x) != len(y):
+                return False
+            stack.extend(zip(x, y))
+        elif x != y:
+            return False
+    return True
+
+
+def deep_case(text, entry):
+    """'ok' | 'parse:<why>' | 'print:<Exc>' | 'reparse:<why>' | 'differs' for one deeply nested text (indent 2)"""
+    r = real_parse(text, entry)
+    if r[0] != "ok":
+        return "parse:" + r[0].replace("internal:", "")
+    p = real_print(r[1], 2)
+    if p[0] != "ok":
+        return "print:" + p[1]
+    r2 = real_parse(p[1], entry)
+    if r2[0] != "ok":
+        return "reparse:" + r2[0].replace("internal:", "")
+    return "ok" if tree_eq_iter(r[1], r2[1]) else "differs"
+
+
+def run_deep(ctx):
+    table = {}
+    corr = []
+    for pos, (entry, mk) in DEEP_POSITIONS.items():
+        row = table.setdefault(pos, {})
+        reported = set()
+        for n in DEEP_DEPTHS:
+            text = mk(n)
+            out = deep_case(text, entry)
+            row[str(n)] = out
+            ctx.count()
+            ctx.stat("deep:%s:%s" % (pos, out.split(":")[0]))
+            detail = {"part": PART, "text": L.cps(text), "indent": 2, "entry": entry, "position": pos, "depth": n, "outcome": out}
+            if out == "ok":
+                ctx.nontrivial(("deep", pos, n))
+                if n <= 100:
+                    corr.append((text, 2, True, entry))
+            elif out.startswith("parse:"):
+                continue                      # not a parser-produced tree (C01: P1 for RecursionError)
+            elif out in ("print:RecursionError", "reparse:RecursionError"):
+                sig = "%s:RecursionError:depth:%s" % ("raises" if out.startswith("print") else "reparse-raises", pos)
+                if sig not in reported:
+                    reported.add(sig)
+                    ctx.fail(sig, "print_ast cannot print a tree the parser produced: the printer needs more Python frames per "
+                             "nesting level than the parser (%s at depth %d)" % (out, n), detail)
+            else:
+                ctx.fail("deep:%s:%s" % (out, pos), "deeply nested document: print o parse is not the identity (%s)" % out, detail)
+    ctx.extra["deep_nesting"] = table
+    check_corr(ctx, corr)
+
+
+# ---------------------------------------------------------------------------------------------
 # HISTORIES: sequences of print calls in one process (public `py_gql.lang.print_ast` and the class `ASTPrinter`) with
 # varying (indent, include_descriptions) on several documents.  Every output must be what the SAME call gives in
 # isolation (a freshly constructed ASTPrinter; the Lean model), and -- with descriptions on -- must re-parse to the tree.
@@ -501,6 +592,7 @@ HISTORY_DOCS = [
     '""" lead""" input I { a: Int = 1 }  """i""" interface N { f(a: S = "x"): T }  extend type T @d',
     'query Q($v: Int = 1) @live { a }  "x" type A  query { s }',
     'schema { query: Q }  """d1""" type Q { a: Int }  extend schema @s',
+    'query Q($v: Int = 1 @a @b(x: [1]), $w: [T!]! @c) { a }  fragment F($x: Int = 2 @d, $y: S @e(k: {a: 1})) on T @f { b }',
 ]
 
 
@@ -648,6 +740,7 @@ def run(ctx):
     _corr_shrinks[0] = 0
     t_end = ctx.time_left()
     run_histories(ctx)
+    run_deep(ctx)
     process(ctx, [(t, e, "corpus") for t, e in corpus_texts()])
     # whole fixtures (one pass, all indents for the small ones)
     for name, text, defs in fixture_definitions():
